@@ -73,6 +73,7 @@ type ReplayFile struct {
 	Log       []string          `json:"log"`
 	MinExecs  int               `json:"minimise_execs"`
 	Faults    map[string]int    `json:"faults"`
+	Param     string            `json:"param"`
 	Path      string            `json:"-"`
 }
 
@@ -122,11 +123,14 @@ type Worker struct {
 	known  map[string]Known
 	seen   map[string]int // index into Res.Found
 	start  time.Time
+	// Param is handed to every run executed through Exec (set by Extra for enumerated runs).
+	Param string
 }
 
 // Exec runs the engine once on tape tp and returns the finished run.
 func (w *Worker) Exec(tp *Tape, keepLog bool) *Run {
 	r := newRun(w.E.Prop, tp, keepLog)
+	r.Param = w.Param
 	resetProcessState()
 	cur.Store(r)
 	defer cur.Store(nil)
@@ -144,9 +148,13 @@ func sameViolation(a, b *Violation) bool {
 // Minimise shrinks a failing tape while the same (check, sig) recurs.
 func (w *Worker) Minimise(tape []uint32, want *Violation) ([]uint32, int) {
 	execs := 0
-	deadline := time.Now().Add(45 * time.Second)
+	maxExecs, maxTime := 1500, 45*time.Second
+	if _, known := w.known[want.Key()]; known {
+		maxExecs, maxTime = 150, 4*time.Second // recorded findings are only counted; keep their cost small
+	}
+	deadline := time.Now().Add(maxTime)
 	try := func(c []uint32) ([]uint32, bool) {
-		if execs >= 1500 || time.Now().After(deadline) {
+		if execs >= maxExecs || time.Now().After(deadline) {
 			return nil, false
 		}
 		execs++
@@ -289,8 +297,11 @@ func (w *Worker) Handle(r *Run, runIdx, runSeed uint64) bool {
 	}
 	rf := &ReplayFile{Property: w.E.Prop, Lane: fr.Lane, Tier: w.Job.Tier, Seed: w.Job.Seed, RunIndex: runIdx, RunSeed: runSeed,
 		Tape: tp.Values(), OrigLen: len(r.T.Values()), Check: fr.V.Check, Sig: fr.V.Sig, Detail: fr.V.Detail, Info: fr.Info,
-		LogHash: fmt.Sprintf("%016x", fr.LogHash()), Log: fr.LogLines(), MinExecs: execs, Faults: fr.Faults}
+		LogHash: fmt.Sprintf("%016x", fr.LogHash()), Log: fr.LogLines(), MinExecs: execs, Faults: fr.Faults, Param: w.Param}
 	name := fmt.Sprintf("%s-%s-%d-%d.json", w.E.Prop, sanitize(fr.V.Check), w.Job.Seed, runIdx)
+	if w.Param != "" {
+		name = fmt.Sprintf("%s-%s-%d-%d-%s.json", w.E.Prop, sanitize(fr.V.Check), w.Job.Seed, runIdx, sanitize(w.Param))
+	}
 	path := filepath.Join(w.Job.ReplayDir, name)
 	b, _ := json.MarshalIndent(rf, "", " ")
 	os.MkdirAll(w.Job.ReplayDir, 0o755)
@@ -417,10 +428,17 @@ func WorkerMain(t *testing.T, engines ...*Engine) {
 		if w.TimeUp() || (job.MaxRuns > 0 && w.Res.Runs >= job.MaxRuns) {
 			break
 		}
+		if e.Extra != nil && time.Since(w.start).Seconds() >= 0.6*job.BudgetS {
+			break
+		}
 		seed := Mix(job.Seed, job.Prop, k)
 		keep := w.Res.Runs < 2 && job.Worker == 0
+		t0 := time.Now()
 		r := w.Exec(NewTape(seed), keep)
 		w.Res.Runs++
+		if os.Getenv("VERIF_TRACE_RUNS") != "" {
+			fmt.Printf("run %d: %.1fms steps=%d draws=%d lane=%s info=%v v=%v\n", k, float64(time.Since(t0).Microseconds())/1000, r.Steps, r.T.Draws, r.Lane, r.Info, r.V != nil)
+		}
 		if dig != nil {
 			fmt.Fprintf(dig, "%d %016x %d %v\n", k, r.LogHash(), r.T.Draws, r.V != nil)
 		}
@@ -436,7 +454,7 @@ func WorkerMain(t *testing.T, engines ...*Engine) {
 			break
 		}
 	}
-	if e.Extra != nil && job.Worker == 0 && len(w.Res.Nondet) == 0 {
+	if e.Extra != nil && len(w.Res.Nondet) == 0 {
 		e.Extra(t, w)
 	}
 }
@@ -476,6 +494,7 @@ func (w *Worker) replay() {
 		os.Exit(2)
 	}
 	w.Job.Tier = rf.Tier
+	w.Param = rf.Param
 	r := w.Exec(ReplayTape(rf.Tape), true)
 	out := map[string]any{"reproduced": false}
 	if r.V != nil {
